@@ -406,4 +406,44 @@ theorem closure_complete (T : Tbl) (hwf : TblWF T) (i : Nat) (hi : i < T.length)
     | mtch _ _ _ => intro hw; cases hw
   exact this n i q [] hp rfl hi'
 
+
+/-- a state set closed under ε-steps -/
+def SClosed (T : Tbl) (S : List Nat) : Prop := ∀ x ∈ S, ∀ y, EpsStep T x y → y ∈ S
+
+theorem closure_closed (T : Tbl) (hwf : TblWF T) (i : Nat) (hi : i < T.length) :
+    i ∈ closure T i ∧ SClosed T (closure T i) := by
+  have h := closureLoop_complete T hwf (T.length + 1) [i] [i]
+    { nodup := by simp, bound := by intro x hx; simp at hx; omega, sub := fun x hx => hx }
+    (by intro x hx hxs; exact absurd hx hxs) (by simp; omega)
+  exact ⟨h.1 i (by simp), h.2⟩
+
+theorem SClosed.path {T : Tbl} {S : List Nat} (h : SClosed T S) {n i j : Nat} (hp : PathN T n i [] j) (hi : i ∈ S) : j ∈ S := by
+  have : ∀ (n i j : Nat) (w : List Sym), PathN T n i w j → w = [] → i ∈ S → j ∈ S := by
+    intro n i j w hp
+    induction hp with
+    | refl => intro _ h'; exact h'
+    | eps hs _ ih => intro hw h'; exact ih hw (h _ h' _ hs)
+    | mtch _ _ _ => intro hw; cases hw
+  exact this n i j [] hp rfl hi
+
+/-- the first symbol of a path's word is read by a match state reached through ε-steps -/
+theorem path_cons_split {T : Tbl} : ∀ {n i e : Nat} {w' : List Sym}, PathN T n i w' e → ∀ (a : Sym) (w : List Sym), w' = a :: w →
+    ∃ j o n1 n2, PathN T n1 i [] j ∧ T[j]? = some (Node.mtch a o) ∧ PathN T n2 o w e := by
+  intro n i e w' hp
+  induction hp with
+  | refl => intro a w h; cases h
+  | eps hs _ ih =>
+    intro a w h
+    obtain ⟨j, o, n1, n2, p1, hn, p2⟩ := ih a w h
+    exact ⟨j, o, n1 + 1, n2, PathN.eps hs p1, hn, p2⟩
+  | mtch hs hrest _ =>
+    intro a w h
+    cases h
+    exact ⟨_, _, 0, _, PathN.refl _, hs, hrest⟩
+
+theorem mem_matchOuts_of {T : Tbl} {states : List Nat} {i : Nat} {a : Sym} {o : Nat} (hi : i ∈ states)
+    (hn : T[i]? = some (Node.mtch a o)) : (a, o) ∈ matchOuts T states := by
+  unfold matchOuts
+  exact List.mem_filterMap.2 ⟨i, hi, by simp [hn]⟩
+
 end Cep
